@@ -46,21 +46,26 @@ ASSUMPTIONS = [
     "order of several hit events caused by ONE event on several accrual steps is not checked",
     "mode start/stop/ball end are issued in their own tick with a settle gap (mode life cycle itself is C07)",
     "logicblock_*_updated events are not judged (the statement does not mention them)",
+    "machine-wide blocks: the deadline of the timeout clock started during boot is read from the device's "
+    "DelayManager (adopted, not judged); every later deadline is computed by the model",
 ]
 HORIZONS = {"final_settle_s": 6.0, "tie_eps_s": M.EPS}
 TIERS = {
     "quick": {"cases": 8000, "batch": 100, "case_timeout": 30},
-    "thorough": {"cases": 120000, "batch": 500, "case_timeout": 60},
+    "thorough": {"cases": 200000, "batch": 500, "case_timeout": 60},
 }
 MIN_EVALS = {
     "quick": {"state": 200000, "hit_events": 130000, "hits_rejected": 90000, "completion": 15000,
               "after_complete": 9000, "window": 20000, "timeout": 100000, "sequence_order": 15000,
               "accrual_steps": 15000, "mode_restart": 3000, "persist": 1000, "no_crash": 100000},
-    "thorough": {"state": 5000000, "hit_events": 3000000, "hits_rejected": 2000000, "completion": 350000,
-                 "after_complete": 200000, "window": 450000, "timeout": 2500000, "sequence_order": 350000,
-                 "accrual_steps": 350000, "mode_restart": 60000, "persist": 20000, "no_crash": 2500000},
+    "thorough": {"state": 8000000, "hit_events": 5000000, "hits_rejected": 3300000, "completion": 580000,
+                 "after_complete": 330000, "window": 750000, "timeout": 4000000, "sequence_order": 580000,
+                 "accrual_steps": 580000, "mode_restart": 100000, "persist": 33000, "no_crash": 4000000},
 }
 SHRINK_KEYS = ["ops"]
+# mechanisms already triaged as genuine defects of the unchanged tree (reported last so that anything new is replayed)
+TRIAGED_SIGS = ("C18:crash_timer_after_mode_stop", "C18:timer_survives_mode_stop",
+                "C18:crash_control_event_mode_stopped")
 
 MODE = "m1"
 
@@ -455,7 +460,7 @@ def run_case(case):
                 for _ in range(max(0, case.get("players", 1) - 1)):
                     vm.t.add_player()
                 vm.advance(0.5)
-        except MpfCrash as e:      # boot-time problems are not this property's observable
+        except MpfCrash:           # game start problems are not this property's observable: harness error
             raise
         mode_obj = m.modes[MODE] if in_mode else None
 
@@ -467,7 +472,6 @@ def run_case(case):
         def since_restart_f(name, now):
             r = restarted_at[name]
             return r is not None and now - r <= specs[name].T + specs[name].W + 0.01
-        t0 = vm.now()
         for name, sp in specs.items():
             if in_mode:
                 s = M.St()
@@ -485,7 +489,7 @@ def run_case(case):
 
         mode_alive = [not in_mode]
 
-        def step(idx, op, final=False):
+        def step(idx, op):
             """Execute one step on the real machine and on every candidate; compare."""
             nonlocal crashed
             t = vm.now()
@@ -552,7 +556,6 @@ def run_case(case):
 
             mode_active = bool(mode_obj.active) if in_mode else True
             mode_alive[0] = mode_active
-            player_after = cur_player()
             if in_mode and (m.game is None):
                 return False      # game over: nothing more to observe
 
@@ -589,9 +592,6 @@ def run_case(case):
                     active.discard(name)
                     obs_stats["aborted_blocks"] += 1
                     continue
-                if special == "end_ball":
-                    # drain helper advanced time itself; mode may not be restarted yet
-                    pass
                 # ---- model: timers up to t2
                 cs = M.dedupe([y for x in cs for y in M.run_timers(sp, x, t2)])
                 obs_stats["forks_max"] = max(obs_stats["forks_max"], len(cs))
@@ -690,9 +690,10 @@ def run_case(case):
                 if not step(i, op):
                     break
         if crashed is None and active:
-            step(len(case["ops"]), {"post": [], "gap": int(HORIZONS["final_settle_s"] * 1000)}, final=True)
+            step(len(case["ops"]), {"post": [], "gap": int(HORIZONS["final_settle_s"] * 1000)})
 
     # unknown/unexplained first; one violation per signature
+    violations.sort(key=lambda v: v["sig"] in TRIAGED_SIGS)
     seen, uniq = set(), []
     for v in violations:
         if v["sig"] not in seen:
